@@ -195,16 +195,18 @@ func c07Run(r *vkit.Run) {
 			visit([]int{a, b})
 		}
 	}
+	lat := 3
 	if r.Thorough() {
-		for a := range c07S {
-			for b := range c07S {
-				for c := range c07S {
-					visit([]int{a, b, c})
-				}
+		lat = 1
+	}
+	for a := range c07S {
+		for b := range c07S {
+			for c := (a + b) % lat; c < len(c07S); c += lat {
+				visit([]int{a, b, c})
 			}
 		}
 	}
-	r.Note("bounds", fmt.Sprintf("%d records (all 8 subsets of {a=1,b=2,c=x} x 7 lines with SGR sequences, lone ESC, bracket text without ESC) x all single stages and ordered pairs (thorough: triples) over %d stages: label_format renames/templates (incl. missing source, failing template, overwriting), line_format (labels, __line__, __timestamp__, failing, missing label), drop/keep with names and =,!=,=~,!~ matchers, decolorize", len(c07Data), len(c07S)))
+	r.Note("bounds", fmt.Sprintf("%d records (all 8 subsets of {a=1,b=2,c=x} x 7 lines with SGR sequences, lone ESC, bracket text without ESC) x all single stages, ordered pairs and triples (quick: a third of the triples) over %d stages: label_format renames/templates (incl. missing source, failing template, overwriting), line_format (labels, __line__, __timestamp__, failing, missing label), drop/keep with names and =,!=,=~,!~ matchers, decolorize", len(c07Data), len(c07S)))
 }
 
 func c07Replay(r *vkit.Run, v vkit.Violation) *vkit.Violation {
